@@ -65,15 +65,16 @@ NumUnpack(lk, ty, cls) ==
     [] cls = "junk" -> P \cup X      \* str.strip() also drops U+00A0
     (* integer lexemes of 310..4300 digits (hex: any length): int() takes    *)
     (* them; RealNN(int) = float(int) overflows, UintNN(int) is a range error *)
-    [] cls \in {"big", "negbig", "hexbig"} ->
+    [] cls \in {"big", "hexbig"} ->
          IF IsReal(ty) THEN L(lk, "RealBigInt", {"OverflowError"}, X) ELSE X
     (* hex lexeme whose value has more than 4300 decimal digits: int(s, 16)   *)
     (* has no digit limit, but the range error message formats the int        *)
     [] cls = "hexlong" ->
          IF IsReal(ty) THEN L(lk, "RealBigInt", {"OverflowError"}, X)
          ELSE L(lk, "HexLongMsg", {"ValueError"}, X)
-    (* not an int() lexeme: float() gives inf / 0.0                           *)
-    [] cls \in {"fracbig", "expbig"} ->
+    (* mantissa or exponent of many digits, not an int() lexeme: float()      *)
+    (* gives +-inf (fracbig) or +-0.0 (expneg)                                *)
+    [] cls = "fracbig" ->
          IF IsReal(ty) THEN P ELSE L(lk, "IntInf", {"OverflowError"}, X)
     [] cls = "expneg" -> P
     [] OTHER -> X          \* empty, ws, alpha
@@ -170,6 +171,9 @@ ResultOut(lk, shape, elem) ==
     : k \in ob.o}
 
 SingleShapes == {"inst", "instname", "class", "qualdecl"}
+(* operations defined as void: any IRETURNVALUE child is rejected            *)
+(* (_imethodcall has_return_value=False; _iexportcall: `if tup_tree`)        *)
+VoidShapes == {"void", "export"}
 
 (* ---- PARAMVALUE children of the response element (kind o_pv) ------------- *)
 (* list_of_various() turns an ERROR / IRETURNVALUE / RETURNVALUE child into  *)
@@ -235,10 +239,10 @@ DefStage(shape, d) ==
     [] d.k = "v_null" -> IF d.site = "outparamarr" THEN "method" ELSE "parse"
     [] d.k = "v_emb" -> IF d.cls = "numtype" /\ d.site # "prop"
                         THEN "method" ELSE "parse"
-    [] d.k = "o_irv" -> IF shape = "void" THEN "shapechk" ELSE "result"
+    [] d.k = "o_irv" -> IF shape \in VoidShapes THEN "shapechk" ELSE "result"
     [] d.k = "o_struct" ->
          IF d.cls \in {"attr", "text", "irv_in_param", "mixed"} THEN "parse"
-         ELSE IF d.cls \in {"missing", "empty"} /\ shape # "void"
+         ELSE IF d.cls \in {"missing", "empty"} /\ shape \notin VoidShapes
               THEN "result" ELSE "shapechk"
     [] d.k = "o_pv" ->
          IF d.ty = "ERROR" /\ PvFront(d.site) THEN "error"
@@ -373,13 +377,14 @@ DefOut(lk, shape, d) ==
          IF d.site = "emb" \/ d.cls = "d50" THEN P
          ELSE L(lk, "Recursion", {"RecursionError"}, X)
     [] d.k = "o_irv" ->
-         IF shape = "void" THEN X ELSE ResultOut(lk, shape, d.cls)
+         IF shape \in VoidShapes THEN X ELSE ResultOut(lk, shape, d.cls)
     [] d.k = "o_struct" ->
          CASE d.cls \in {"attr", "text", "irv_in_param", "mixed"} -> X
            [] d.cls = "missing" -> IF shape \in SingleShapes THEN X ELSE P
            [] d.cls = "empty" ->
-                IF shape \in SingleShapes \cup {"void"} THEN X ELSE P
-           [] d.cls \in {"dup", "many"} -> IF shape = "void" THEN X ELSE P
+                IF shape \in SingleShapes \cup VoidShapes THEN X ELSE P
+           [] d.cls \in {"dup", "many"} ->
+                IF shape \in VoidShapes THEN X ELSE P
            [] OTHER -> IF shape \in PullShapes THEN P \cup X ELSE X
     [] d.k = "o_pv" -> PvOut(lk, shape, d)
     [] d.k = "p_eos" ->
@@ -395,8 +400,9 @@ DefOut(lk, shape, d) ==
                 {"XMLParseError"} \cup L(lk, "EmbTypes", {"TypeError"}, X)
            [] OTHER -> P
     [] d.k = "m_misc" ->
-         CASE d.cls \in {"dup_out", "out_bool_false", "out_instname",
+         CASE d.cls \in {"dup_out", "out_instname",
                          "out_namedinst", "out_ref_text"} -> P
+           [] d.cls = "out_bool_false" -> P \cup X   \* unpack_boolean
            [] d.cls \in {"irv", "out_noname", "retval_attr",
                          "retval_refarray"} -> X
            [] d.cls \in {"out_class", "out_notype"} -> P \cup conv
